@@ -57,15 +57,14 @@ func init() {
 			text, mode := unhx(f[0]), f[1]
 			if mode == "absent" {
 				r := &rules.MatchingResult{}
-				return fmt.Sprint(uint32(r.GetCosmeticOption())), line + "\t0\t0", true
+				return fmt.Sprint(uint32(r.GetCosmeticOption())), line, true
 			}
 			rule, err := rules.NewNetworkRule(text, 1)
 			if err != nil {
 				st.Inc("rejected")
-				return "E", line + "\tE\t0", false
+				return "E", line, false
 			}
-			fields := rule.VerifFields()
-			mi := line + "\t" + b01(rule.Whitelist) + "\t" + fields["enabled"]
+			mi := line
 			var opt rules.CosmeticOption
 			switch mode {
 			case "direct":
